@@ -5555,6 +5555,12 @@ def string2ast(s):
     # result = deepcopy(result)  # no need for now, but may be needed later
     return result
 
+def remove_shadowing_names(locals, globals):
+    # The names of a function or a generator object are resolved in its own closure, globals and builtins.
+    # Variables of the frame which passes the object to a query method must not shadow them
+    for name in list(locals):
+        if name in globals or hasattr(builtins, name): del locals[name]
+
 def get_globals_and_locals(args, kwargs, frame_depth, from_generator=False):
     args_len = len(args)
     assert args_len > 0
@@ -5585,7 +5591,11 @@ def get_globals_and_locals(args, kwargs, frame_depth, from_generator=False):
             locals.update(sys._getframe(frame_depth+1).f_locals)
         if type(func) is types.GeneratorType:
             globals = func.gi_frame.f_globals
+            remove_shadowing_names(locals, globals)
             locals.update(func.gi_frame.f_locals)
+        elif type(func) is types.FunctionType:
+            globals = func.__globals__
+            remove_shadowing_names(locals, globals)
         elif frame_depth is not None:
             globals = sys._getframe(frame_depth+1).f_globals
     if kwargs: throw(TypeError, 'Keyword arguments cannot be specified together with positional arguments')
